@@ -269,6 +269,24 @@ def run(ctx):
     C20.r3_flush_handover(ctx, 'C17.R7')  # a reset discards only the reset stream's own in-flight DATA
 
 
+def r10_remember_after_reset(ctx, rid='C17.R10'):
+    r = ctx.rule(rid, 'PAIR', 'a reset stream is remembered only after the reset changed its state: enqueue_reset_expiration (which tests is_local_error) follows Send::send_reset')
+    F = ctx.facts
+    P_ = 'proto::streams::'
+    n = 0
+    for name, f in sorted(F.fns.items()):
+        if not (name.split('::{closure')[0] in (P_ + 'streams::Actions::send_reset', P_ + 'streams::Actions::reset_on_recv_stream_err')):
+            continue
+        en = [bi for bi, t in f.calls_to(P_ + 'recv::Recv::enqueue_reset_expiration')]
+        sr = [bi for bi, t in f.calls_to(P_ + 'send::Send::send_reset')]
+        for e in en:
+            n += 1
+            ok = bool(sr) and f.dominated_by_blocks(e, sr)
+            r.check(ok, 'remember-after-reset|' + name.replace(P_, ''), f.loc(e), '%s: enqueue_reset_expiration runs %s' % (name.split('::')[-1] if 'closure' not in name else name.split('::')[-2], 'after Send::send_reset' if ok else
+                    'BEFORE Send::send_reset: the state is not a local error yet, so nothing is remembered and every late frame of the peer draws another RST_STREAM(STREAM_CLOSED)'))
+    r.floor(n, 2, 'enqueue_reset_expiration sites next to a reset')
+
+
 _run_rules = run
 
 
@@ -276,6 +294,8 @@ def run(ctx):
     _run_rules(ctx)
     from .. import boundaries
     boundaries.check(ctx, 'C17.RB', 'C17')
+    boundaries.check_writes(ctx, 'C17.RW', 'C17')
+    r10_remember_after_reset(ctx)
     boundaries.check_codes(ctx, 'C17.RE', 'C17')
     boundaries.check_writes(ctx, 'C17.RW', 'C17')
     boundaries.check_calls(ctx, 'C17.RC', 'C17')
